@@ -655,6 +655,30 @@ func (c *CheckRun) judgeInsts(insts []*Instance, depth int) {
 		c.Broken = append(c.Broken, "native replay: "+err.Error())
 		return
 	}
+	// schedule-dependent findings: if one in-process stress run did not reproduce, try fresh
+	// (cold-start) processes of the -race build, which also widens the timing windows
+	var coldRP *Replayer
+	for i, p := range pend {
+		if p.inst.Harness != "H_C12_sched" || len(res[i].Failures) > 0 || res[i].Panic != "" {
+			continue
+		}
+		if coldRP == nil {
+			osMkdirAll(c.TmpDir + "/cold")
+			coldRP = NewReplayer(c.TmpDir + "/cold")
+			coldRP.race = true
+		}
+		raced, failures, out, rerr := coldRP.RunRace(p.vec, 25)
+		if rerr != nil {
+			continue
+		}
+		if raced {
+			failures = append(failures, "concurrent-data-race-reported")
+		}
+		if len(failures) > 0 {
+			res[i] = &NativeResult{Failures: failures}
+			p.vec.Note = "reproduced in a fresh process of the -race build: " + firstLines(out, 4)
+		}
+	}
 	os.MkdirAll(filepath.Join(evidenceDir(), "replays"), 0755)
 	nviol := len(c.Violations)
 	doneFinding := map[*Finding]bool{}
